@@ -255,3 +255,89 @@ Qed.
 (* from the start of a run *)
 Corollary flow_safe p tr o st' : run None p tr o -> flow p (false, false) = Some st' -> safe_from (false, false) tr = true.
 Proof. intros Hr Hf. exact (proj1 (flow_sound _ _ _ _ Hr _ _ Hf _ (fle_refl _))). Qed.
+
+(* ------------------------------------------------------------------ bounds on the number of calls of a stage *)
+Lemma hs_bound_eq s hs :
+  (fix go (l : list (catch * prog)) : option nat :=
+     match l with [] => Some 0 | (_, h) :: r => obind2 Nat.add (calls_bound s h) (go r) end) hs = hs_bound s hs.
+Proof. induction hs as [|[c h] r IH]; [reflexivity|]. cbn [hs_bound]. rewrite <- IH. reflexivity. Qed.
+
+Lemma calls_bound_try s b hs e f :
+  calls_bound s (PTry b hs e f) =
+  obind2 Nat.add (obind2 Nat.add (calls_bound s b) (calls_bound s e)) (obind2 Nat.add (calls_bound s f) (hs_bound s hs)).
+Proof. rewrite <- hs_bound_eq. reflexivity. Qed.
+
+Lemma count_stage_app s t1 t2 : count_stage s (t1 ++ t2) = count_stage s t1 + count_stage s t2.
+Proof. induction t1 as [|[s' ok] r IH]; [reflexivity|]. cbn [app count_stage]. rewrite IH. lia. Qed.
+
+Lemma obind2_some f a b n : obind2 f a b = Some n -> exists x y, a = Some x /\ b = Some y /\ n = f x y.
+Proof. destruct a as [x|], b as [y|]; cbn; intro H; try discriminate. inversion H. exists x, y. auto. Qed.
+
+Theorem calls_bound_sound s cur p tr o : run cur p tr o -> forall n, calls_bound s p = Some n -> count_stage s tr <= n.
+Proof.
+  revert cur p tr o.
+  apply (run_ind2 (fun cur p tr o => forall n, calls_bound s p = Some n -> count_stage s tr <= n)
+                  (fun x hs t o => forall n, hs_bound s hs = Some n -> count_stage s t <= n)).
+  - intros; cbn; lia.
+  - intros cur s' n H. cbn in *. inversion H. lia.
+  - intros cur s' x n H. cbn in *. inversion H. lia.
+  - (* RSeqN *) intros cur p q t1 t2 o _ IH1 _ IH2 n H. cbn [calls_bound] in H.
+    destruct (obind2_some _ _ _ _ H) as [x [y [Ha [Hb ->]]]]. rewrite count_stage_app. specialize (IH1 x Ha). specialize (IH2 y Hb). lia.
+  - (* RSeqStop *) intros cur p q t1 o _ IH1 _ n H. cbn [calls_bound] in H.
+    destruct (obind2_some _ _ _ _ H) as [x [y [Ha [Hb ->]]]]. specialize (IH1 x Ha). lia.
+  - intros cur p q t o _ IH n H. cbn [calls_bound] in H. destruct (obind2_some _ _ _ _ H) as [x [y [Ha [Hb ->]]]]. specialize (IH x Ha). lia.
+  - intros cur p q t o _ IH n H. cbn [calls_bound] in H. destruct (obind2_some _ _ _ _ H) as [x [y [Ha [Hb ->]]]]. specialize (IH y Hb). lia.
+  - intros; cbn; lia.
+  - (* RLoopS *) intros cur p t1 t2 o1 o _ IH1 _ _ IH2 n H. pose proof H as H'. cbn [calls_bound] in H.
+    destruct (calls_bound s p) as [[|k]|] eqn:E; try discriminate. inversion H; subst n.
+    rewrite count_stage_app. specialize (IH1 0 eq_refl). specialize (IH2 0 H'). lia.
+  - (* RLoopBreak *) intros cur p t1 _ IH1 n H. cbn [calls_bound] in H.
+    destruct (calls_bound s p) as [[|k]|] eqn:E; try discriminate. inversion H; subst n. exact (IH1 0 eq_refl).
+  - (* RLoopStop *) intros cur p t1 o _ IH1 _ n H. cbn [calls_bound] in H.
+    destruct (calls_bound s p) as [[|k]|] eqn:E; try discriminate. inversion H; subst n. exact (IH1 0 eq_refl).
+  - intros; cbn; lia.
+  - intros; cbn; lia.
+  - intros; cbn; lia.
+  - intros; cbn; lia.
+  - (* RTryN *) intros cur b hs e f t1 t2 t3 o o2 _ IHb _ IHe _ IHf n H. rewrite calls_bound_try in H.
+    destruct (obind2_some _ _ _ _ H) as [x [y [Hx [Hy ->]]]].
+    destruct (obind2_some _ _ _ _ Hx) as [xb [xe [Hb [He ->]]]]. destruct (obind2_some _ _ _ _ Hy) as [xf [xh [Hf [Hh ->]]]].
+    rewrite !count_stage_app. specialize (IHb _ Hb). specialize (IHe _ He). specialize (IHf _ Hf). lia.
+  - (* RTryRet *) intros cur b hs e f t1 t3 k o2 _ IHb _ IHf n H. rewrite calls_bound_try in H.
+    destruct (obind2_some _ _ _ _ H) as [x [y [Hx [Hy ->]]]].
+    destruct (obind2_some _ _ _ _ Hx) as [xb [xe [Hb [He ->]]]]. destruct (obind2_some _ _ _ _ Hy) as [xf [xh [Hf [Hh ->]]]].
+    rewrite !count_stage_app. specialize (IHb _ Hb). specialize (IHf _ Hf). lia.
+  - (* RTryX *) intros cur b hs e f t1 t2 t3 x o o2 _ IHb _ IHh _ IHf n H. rewrite calls_bound_try in H.
+    destruct (obind2_some _ _ _ _ H) as [x1 [y [Hx [Hy ->]]]].
+    destruct (obind2_some _ _ _ _ Hx) as [xb [xe [Hb [He ->]]]]. destruct (obind2_some _ _ _ _ Hy) as [xf [xh [Hf [Hh ->]]]].
+    rewrite !count_stage_app. specialize (IHb _ Hb). specialize (IHh _ Hh). specialize (IHf _ Hf). lia.
+  - intros; cbn; lia.
+  - (* HHit *) intros x c h r t o _ _ IH n H. cbn [hs_bound] in H. destruct (obind2_some _ _ _ _ H) as [a [b [Ha [Hb ->]]]]. specialize (IH a Ha). lia.
+  - (* HSkip *) intros x c h r t o _ _ IH n H. cbn [hs_bound] in H. destruct (obind2_some _ _ _ _ H) as [a [b [Ha [Hb ->]]]]. specialize (IH b Hb). lia.
+Qed.
+
+Lemma count_two s t : In (s, false) t -> In (s, true) t -> 2 <= count_stage s t.
+Proof.
+  assert (Hrefl : stage_eqb s s = true) by (destruct s; cbn; auto using Nat.eqb_refl).
+  assert (Hone : forall b t0, In (s, b) t0 -> 1 <= count_stage s t0).
+  { intros b t0. induction t0 as [|[s' ok] r IH]; intros Hin; [destruct Hin|]. cbn [count_stage].
+    destruct Hin as [E|Hin]; [inversion E; subst; rewrite Hrefl; lia | specialize (IH Hin); lia]. }
+  induction t as [|[s' ok] r IH]; intros Hf Ht; [destruct Hf|]. cbn [count_stage].
+  destruct Hf as [Ef|Hf]; destruct Ht as [Et|Ht].
+  - rewrite Ef in Et. inversion Et.
+  - inversion Ef; subst. rewrite Hrefl. pose proof (Hone true r Ht). lia.
+  - inversion Et; subst. rewrite Hrefl. pose proof (Hone false r Hf). lia.
+  - specialize (IH Hf Ht). lia.
+Qed.
+
+(* a trace that is safe from a state in which preprocessing has not completed, and in which it never completes, has no density job *)
+Lemma no_merge_without_pre t : forall b, safe_from (false, b) t = true -> ~ In (SPre, true) t -> forall ok, ~ In (SMerge, ok) t.
+Proof.
+  induction t as [|[s ok0] r IH]; intros b Hs Hn ok Hin; [destruct Hin|].
+  destruct s; cbn [safe_from fst snd] in Hs.
+  - destruct ok0; [apply Hn; left; reflexivity|]. cbn [orb] in Hs.
+    destruct Hin as [E|Hin]; [discriminate E|]. eapply (IH b); [exact Hs | intro H; apply Hn; right; exact H | exact Hin].
+  - destruct Hin as [E|Hin]; [discriminate E|]. eapply (IH (b || ok0)); [exact Hs | intro H; apply Hn; right; exact H | exact Hin].
+  - cbn [andb] in Hs. discriminate Hs.
+  - destruct Hin as [E|Hin]; [discriminate E|]. eapply (IH b); [exact Hs | intro H; apply Hn; right; exact H | exact Hin].
+Qed.
